@@ -7,6 +7,8 @@ CONSTANTS
   AllowCancel = TRUE
   HasNotify = TRUE
   ShutFirst = TRUE
+  Forwarders = {}
+  ForwardRewinds = FALSE
 INVARIANTS Correlated DistinctIds NotifyOnlyToSubscriber ChanAtMostOne NoResidue WaiterHasFuture
 
 CHECK_DEADLOCK FALSE
